@@ -28,6 +28,12 @@ Programs are expression trees (JSON):
                               ["w"] write it (checked; compacts a selection in place) | ["t", field] read a field (fills the caches)
                               | ["rw", [fields]] bnp.replace + write of the replaced copy (checked), the history goes on with e
 All ["read", F] nodes of one program denote the same table object (one read per file and program).
+
+Besides the main files (SPECS: one pair of files per format) there is a second family of files (COLUMN_SPECS) that
+varies the NUMBER OF COLUMNS BEHIND the fields of the entry type - VCF without FORMAT / with 0, 1, 3 sample columns,
+SAM without tags / with exactly one tag per record, BED with extra columns - because the 'rest of line' of a record is
+fetched by code that depends on that number; they run a reduced program set (gen_columns) and their failures have
+signatures of their own (trailing-columns:<buffer>:<column count>:<write path>:<symptom>).
 """
 import itertools
 import os
@@ -186,6 +192,83 @@ SPECS = {
 TEXT_VARIANTS = [v for v in SPECS if v != "bam"]
 
 
+# --------------------------------------------------------------------------------------------------------------
+# scope extension: the NUMBER OF COLUMNS BEHIND the fields of the entry type.  The 'rest of line' of a record (VCF:
+# FORMAT + sample columns, SAM: optional tags, BED: columns the 3-column entry type does not name) is fetched by code
+# that depends on how many columns there are, so every count at and around the boundaries gets files of its own:
+# VCF without FORMAT column (8 columns), FORMAT but no sample, exactly 1 sample, 3 samples (the files above have 2),
+# read with the genotype-carrying buffer, with the default buffer and with ##INFO header lines; SAM files in which no
+# record / every record has exactly one tag (the files above mix 0..3 tags); BED files with 5 columns read as BED3.
+# Same records (same non-canonical text, same unequal lengths) as VCF_A/VCF_B, SAM_A/SAM_B, BED6_A/BED6_B.
+# --------------------------------------------------------------------------------------------------------------
+
+def _vcf_columns(recs, n_samples, fmt=True):
+    out = []
+    for r, (line,) in enumerate(recs):
+        cols = line.split("\t")
+        fixed, f, s = cols[:8], cols[8], cols[9:]
+        # a third sample value of the record's FORMAT: 'GT:DP' -> DP with one more digit, 'GT' -> alleles swapped
+        pool = s + [s[0] + "0" if ":" in f else s[1][::-1]]
+        if not fmt:
+            out.append([_tab(*fixed)])
+        elif n_samples == 1:
+            out.append([_tab(*(fixed + [f, pool[r % 2]]))])
+        else:
+            out.append([_tab(*(fixed + [f] + pool[:n_samples]))])
+    return out
+
+
+def _vcf_head(n_samples, fmt=True, info=False):
+    head = VCF_HEAD_INFO if info else VCF_HEAD_NOINFO
+    cols = "#CHROM\tPOS\tID\tREF\tALT\tQUAL\tFILTER\tINFO" + ("\tFORMAT" if fmt else "") + "".join("\ts%d" % (i + 1) for i in range(n_samples))
+    return head[:head.index("#CHROM")] + cols + "\n"
+
+
+def _sam_tags(recs, n_tags):
+    out = []
+    for r, (line,) in enumerate(recs):
+        cols = line.split("\t")
+        tags = cols[11:] or ["NM:i:0%d" % r]
+        out.append([_tab(*(cols[:11] + tags[-n_tags:] if n_tags else cols[:11]))])
+    return out
+
+
+VCF_F_COLS = VCF_F[:7] + [("info", None)]      # INFO is checked, not replaced (replacing it: variant vcf_noinfo, 'solo')
+
+
+def _vcf_column_spec(buffer, n_samples, fmt, info, tag, kind):
+    genotypes = buffer == "VCFBuffer2"
+    return dict(family="vcf", suffix=".vcf", buffer=buffer, header=_vcf_head(n_samples, fmt, info),
+                A=_vcf_columns(VCF_A, n_samples, fmt), B=_vcf_columns(VCF_B, n_samples, fmt),
+                fields=VCF_F_COLS + ([("genotype", None)] if genotypes else []),
+                parse=_delimited(_names(VCF_F), rest_name="genotype") if genotypes else _delimited(_names(VCF_F), at_least=True),
+                lines=1, touch=["position", "alt_seq"] + (["genotype"] if genotypes else []), columns=tag, colgen=kind)
+
+
+# variant -> spec; "columns": the tag of the variant in the signatures, "colgen": which programs (gen_columns)
+COLUMN_SPECS = {
+    "vcf2_nofmt": _vcf_column_spec("VCFBuffer2", 0, False, False, "vcf2:no-FORMAT-column", "rest"),
+    "vcf2_s0": _vcf_column_spec("VCFBuffer2", 0, True, False, "vcf2:FORMAT-and-0-samples", "rest"),
+    "vcf2_s1": _vcf_column_spec("VCFBuffer2", 1, True, False, "vcf2:1-sample", "rest"),
+    "vcf2_s3": _vcf_column_spec("VCFBuffer2", 3, True, False, "vcf2:3-samples", "rest"),
+    "vcf2_info_s1": _vcf_column_spec("VCFBuffer2", 1, True, True, "vcf2+INFO-header:1-sample", "mini"),
+    "vcf_nofmt": _vcf_column_spec(None, 0, False, False, "vcf:no-FORMAT-column", "plain"),
+    "vcf_s1": _vcf_column_spec(None, 1, True, False, "vcf:1-sample", "plain"),
+    "vcf_s3": _vcf_column_spec(None, 3, True, False, "vcf:3-samples", "plain"),
+    "sam_t0": dict(family="sam", suffix=".sam", buffer=None, header=SAM_HEAD, A=_sam_tags(SAM_A, 0), B=_sam_tags(SAM_B, 0),
+                   fields=SAM_F, parse=_delimited(_names(SAM_F)[:11], rest_name="extra"), lines=1,
+                   touch=["position", "name", "extra"], columns="sam:no-tags", colgen="rest"),
+    "sam_t1": dict(family="sam", suffix=".sam", buffer=None, header=SAM_HEAD, A=_sam_tags(SAM_A, 1), B=_sam_tags(SAM_B, 1),
+                   fields=SAM_F, parse=_delimited(_names(SAM_F)[:11], rest_name="extra"), lines=1,
+                   touch=["position", "name", "extra"], columns="sam:1-tag-in-every-record", colgen="rest"),
+    "bed3_c5": dict(family="delimited", suffix=".bed", buffer=None, header="", A=[[_tab(*l[0].split("\t")[:5])] for l in BED6_A],
+                    B=[[_tab(*l[0].split("\t")[:5])] for l in BED6_B], fields=BED_F, parse=_delimited(_names(BED_F), at_least=True),
+                    lines=1, touch=["start", "chromosome"], columns="bed3:5-columns", colgen="plain"),
+}
+SPECS.update(COLUMN_SPECS)
+COLUMN_VARIANTS = list(COLUMN_SPECS)
+
+
 def bam_material():
     from .refmodels import bam_ref as R
     header = R.encode_header("@HD\tVN:1.6\tSO:unsorted\n@SQ\tSN:chr1\tLN:1000\n@SQ\tSN:chr2\tLN:500\n", [("chr1", 1000), ("chr2", 500)])
@@ -287,9 +370,9 @@ class EvalError(Exception):
 
 
 class Violation(Exception):
-    def __init__(self, kind, message):
+    def __init__(self, kind, message, field=None):
         super().__init__(message)
-        self.kind, self.message = kind, message
+        self.kind, self.message, self.field = kind, message, field
 
 
 class Ctx:
@@ -521,10 +604,10 @@ def check_table(cx, table, rows, exact, mixed_fields=()):
                 ok = (abs(float(got_f[name]) - e[1]) < 1e-9) if isinstance(e, tuple) and _is_float(got_f[name]) else got_f[name] == e
                 if not ok:
                     raise Violation("replaced-column-wrong", "record %d field %s: written %r, new value %r; output %r"
-                                    % (r, name, got_f[name], e, body[:300]))
+                                    % (r, name, got_f[name], e, body[:300]), field=name)
             elif got_f[name] != src[name]:
                 raise Violation("noncanonical-text-rewritten" if _same_number(got_f[name], src[name]) else "unreplaced-field-changed", "record %d (source %s[%d]) field %s: written %r, source text %r; output %r"
-                                % (r, f, i, name, got_f[name], src[name], body[:300]))
+                                % (r, f, i, name, got_f[name], src[name], body[:300]), field=name)
 
 
 def _same_number(a, b):
@@ -683,6 +766,15 @@ def replaced_fields(e):
 OWN_SIGNATURE_GROUPS = ("replace-with-cached-field", "selection-history")
 
 
+def column_signature(cx, program, what):
+    """failures in the files of the column-count scope (COLUMN_SPECS): trailing-columns:<buffer>:<column count>:<which
+    write path>:<symptom>[:<field>] - independent of the program shape, so that one defect of the 'rest of line' code
+    is one finding.  Unreadable files and exceptions of np.concatenate keep the signatures they have for the other
+    files (that code does not depend on the number of columns)."""
+    path = "replaced-write" if replaced_fields(program) else "passthrough"
+    return "trailing-columns:%s:%s:%s" % (cx.spec["columns"], path, what)
+
+
 def run_program(cx, group, program):
     """-> None if the contract holds, else (signature, message).
     Signatures: symptoms that do not depend on the program shape (line terminator lost, text canonicalised, file
@@ -702,6 +794,8 @@ def run_program(cx, group, program):
         except Exception as e:
             raise EvalError("write", e)
     except Violation as v:
+        if "columns" in cx.spec:
+            return column_signature(cx, program, v.kind + (":" + v.field if v.field else "")), v.message
         if group.split(":")[0] in OWN_SIGNATURE_GROUPS:
             g0 = group.split(":")[0]
             if v.kind == "noncanonical-text-rewritten" and replaced_fields(program):
@@ -718,6 +812,8 @@ def run_program(cx, group, program):
         msg = repr(e.exc)[:400]
         if e.where == "read":
             return "read:exception:%s:%s:%s" % (tname, fam, cx.eol), msg
+        if "columns" in cx.spec and e.where != "cat":
+            return column_signature(cx, program, "exception-in-%s:%s" % (e.where, tname)), msg
         if group.split(":")[0] in OWN_SIGNATURE_GROUPS:
             return "%s:exception-in-%s:%s:%s:%s" % (group.split(":")[0], e.where, tname, fam, cx.eol), msg
         if e.where == "cat":
@@ -1072,6 +1168,96 @@ def gen_history_bam():
             yield "selection-history:then-select", ["idx", e, REV]
 
 
+def _restricted(spec, n):
+    """copy of spec in which only n fields (an integer column, the last and the middle replaceable column) count as
+    replaceable: for the generators that are quadratic in the number of fields"""
+    free = _free_fields(spec)
+    ints = [f for f, kind in spec["fields"] if kind in ("int", "vcfpos") and f in free]
+    keep = list(dict.fromkeys(ints[:1] + free[-1:] + [free[len(free) // 2]]))[:n]
+    return dict(spec, fields=[(f, kind if f in keep else None) for f, kind in spec["fields"]])
+
+
+def column_effort(spec, tier, eol):
+    """0 / 1 / 2 = small / reduced / standard program set of gen_columns.  SAM rows are ragged and every read of a VCF
+    with ##INFO lines rebuilds its classes (4 to 10 ms per program): these get one step less"""
+    slow = spec["colgen"] == "mini" or spec["family"] == "sam"
+    if tier != "thorough":
+        return 0 if (slow or eol != "lf") else 1
+    return 1 if (slow or eol != "lf") else 2
+
+
+def gen_columns(spec, effort, eol):
+    """programs for the files of the column-count scope (COLUMN_SPECS); effort: see column_effort.
+    colgen 'rest' / 'mini': the entry type has a 'rest of line' field (VCF genotypes, SAM tags) - selections,
+    concatenations, every single field and pairs of fields replaced (before / after / between selections and
+    concatenations), reads of other fields around the replacement, write / read / replace histories on one selection,
+    chunked reads; 'plain': the trailing columns are not part of the entry type - selections, concatenations, chunked
+    reads, every single field replaced (the columns of the entry type must keep their text)."""
+    lf = eol == "lf"
+    # selections: every operation; then 4 core operations on the result of the core ones (standard: the core operations
+    # on the result of every operation), also with the intermediate table written
+    if effort == 2:
+        at = lambda d, m: full_ops(m) if d == 0 else core_ops(m)
+    else:
+        at = lambda d, m: full_ops(m) if d == 0 else core_ops(m)[:4]
+    for ops in chains(NA, 2 if effort else 1, at):
+        if effort < 2 and len(ops) == 2 and ops[0] not in core_ops(NA):
+            continue
+        yield "select", chain_expr(A_, ops)
+        if len(ops) == 2:
+            yield "select-materialised", chain_expr(A_, ops, mat=True)
+    if lf and effort:
+        yield from gen_access(spec, effort - 1)
+    # concatenations: two files, selected operands, three operands, selection of the result
+    sp = small_pool()
+    for a, b in itertools.product(sp, sp):
+        if effort == 0 and (a[0] != "idx" or b[0] != "idx"):
+            continue
+        yield "concat", ["cat", [a, b]]
+        if effort and (effort == 2 or a is not b):
+            yield "concat-then-select", ["idx", ["cat", [a, b]], NEG]
+        if effort == 2:
+            yield "concat-then-select", ["idx", ["cat", [a, b]], S(1, None, 2)]
+            yield "concat-materialised", ["cat", [["mat", a], b]]
+    sp3 = [sp, [sp[1], sp[3], sp[5]], [sp[1], sp[4]]][2 - effort]
+    for a, b, c in itertools.product(sp3, sp3, sp3):
+        yield "concat3", ["cat", [a, b, c]]
+    # replaced fields
+    singles, pairs = field_subsets(spec)
+    rest = spec["colgen"] != "plain"
+    if rest and effort == 2:
+        yield from gen_replace(spec, 1, 0)
+    else:
+        cat = ["cat", [["idx", A_, NEG], ["idx", B_, REV]]]
+        for fs in singles:
+            yield "replace", ["rep", A_, fs]
+            yield "select-then-replace", ["rep", ["idx", A_, NEG], fs]
+            yield "select-then-replace", ["rep", ["idx", A_, ["mask", [True, False, True, True]]], fs]
+            yield "replace-then-select", ["idx", ["rep", A_, fs], REV]
+            yield "concat-then-replace", ["rep", cat, fs]
+            if effort:
+                yield "select-then-replace", ["rep", ["idx", A_, S(1, None)], fs]
+                yield "materialise-then-replace", ["rep", ["mat", ["idx", A_, NEG]], fs]
+                yield "select-replace-select", ["idx", ["rep", ["idx", A_, NEG], fs], S(1, None)]
+                yield "replace-then-concat", ["cat", [["rep", ["idx", A_, NEG], fs], ["rep", B_, fs]]]
+            if effort == 2:
+                for op in core_ops(NA):
+                    yield "select-then-replace", ["rep", ["idx", A_, op], fs]
+                    yield "replace-then-select", ["idx", ["rep", A_, fs], op]
+        if rest:
+            for fs in (pairs if effort else pairs[::3]):
+                yield "replace", ["rep", A_, fs]
+    if rest:
+        yield from gen_history(spec, 1 if effort == 2 else 0)
+        if lf:
+            yield from (gen_cached(spec, 1) if effort == 2 else gen_cached(_restricted(spec, 2 + effort), 0))
+        if effort == 2:
+            yield from gen_isolation(spec, 0)
+    total = len(spec["header"]) + sum(len(l) + 1 for rec in spec["A"] for l in rec)
+    sizes = [[40], [16, total // 2], sorted({1, 16, 40, 64, total // 2, total - 1, total})][effort]
+    yield from gen_chunks(0, sizes)
+
+
 def resolve_masks(e, cx):
     """["mask","alt"] placeholders (length known only from the model) -> concrete masks"""
     if not isinstance(e, list) or not e:
@@ -1119,6 +1305,9 @@ THOROUGH_LEVEL = {"bed": 1, "bed6": 1, "narrowPeak": 2, "vcf": 1, "vcf_noinfo": 
 
 def programs(variant, tier, eol):
     spec = SPECS[variant]
+    if "columns" in spec:
+        yield from gen_columns(spec, column_effort(spec, tier, eol), eol)
+        return
     if tier == "thorough":
         level = THOROUGH_LEVEL.get(variant, 1) if eol == "lf" else 1
         if variant == "vcf" and eol != "lf":      # every read of a VCF with ##INFO lines rebuilds its classes (about 10 ms)
@@ -1187,7 +1376,8 @@ def programs(variant, tier, eol):
 
 
 # relative cost of one program (reading a VCF with ##INFO lines rebuilds its classes; SAM rows are ragged)
-COST = {"vcf": 5.0, "sam": 2.0, "gtf": 4.0, "gtf_noncanon": 4.0, "fastq": 1.3, "narrowPeak": 1.2}
+COST = {"vcf": 5.0, "sam": 2.0, "gtf": 4.0, "gtf_noncanon": 4.0, "fastq": 1.3, "narrowPeak": 1.2,
+        "vcf2_info_s1": 5.0, "sam_t0": 2.0, "sam_t1": 2.0}
 
 
 def plan(tier):
@@ -1196,7 +1386,12 @@ def plan(tier):
     crlf = [v for v in TEXT_VARIANTS if v != "gtf_noncanon"]
     if tier == "quick":      # one representative per buffer class
         crlf = ["narrowPeak", "vcf2", "sam", "gtf", "fastq", "fasta2"]
-    return out + [(v, "crlf") for v in crlf]
+    out = out + [(v, "crlf") for v in crlf]
+    # the column-count scope: every variant with LF; CRLF for the one-sample VCF (thorough: every genotype-carrying VCF;
+    # a SAM file with CRLF cannot be read at all - see read:exception:...:sam:crlf - so the SAM variants stay LF)
+    out += [(v, "lf") for v in COLUMN_VARIANTS]
+    out += [(v, "crlf") for v in (["vcf2_s1"] if tier == "quick" else ["vcf2_nofmt", "vcf2_s0", "vcf2_s1", "vcf2_s3", "vcf_s1", "bed3_c5"])]
+    return out
 
 
 RULE = ("exhaustive over expression trees of selections (slice / step / boolean mask / integer list with repeats and "
@@ -1205,7 +1400,8 @@ RULE = ("exhaustive over expression trees of selections (slice / step / boolean 
         "operands) and field replacements (every single field, every pair, triples, all; before / after / between "
         "selections and concatenations; with other fields read before / after the replacement or attribute assignment, all "
         "others or exactly one), histories of writes / field reads / replace-and-write on one selection object (3-4 steps) "
-        "per format and line ending; a case is one (format, line ending, program); distinct = "
+        "per format and line ending; the same (reduced) for files with every number of trailing columns around the "
+        "boundaries of the 'rest of line' code (VCF 0-3 samples / no FORMAT, SAM 0 / 1 tags, BED extra columns); a case is one (format, line ending, program); distinct = "
         "distinct (format, line ending, program); every case except the bare read is non-trivial")
 
 
@@ -1228,6 +1424,12 @@ def run(tier="quick", seed=0):
                   "selection_history": "steps {write, read field (2; deep 3), replace+write (1; deep 2)}: all sequences of 2 steps (deep: "
                                        "also of 3 steps on 3 selections) that are not reads only, closed by a write or a replacement + write, "
                                        "on 1 / 2 / 6 selections (reduced / standard / deep); BAM: write / read sequences of 3 steps on 3 selections",
+                  "trailing_columns": "files with a fixed number of columns behind the fields of the entry type: VCF with no FORMAT column / "
+                                      "FORMAT and 0 / 1 / 3 samples (2 in the main files) x {VCFBuffer2, default buffer}, VCFBuffer2 with "
+                                      "##INFO header and 1 sample; SAM with no tags / exactly 1 tag in every record; 5-column BED read as "
+                                      "BED3; per file: selections to depth 2, concatenations of 2 and 3 operands, every single field and "
+                                      "pair replaced around selections / concatenations, cached-field and history programs (reduced "
+                                      "level; thorough: standard level), chunked reads; variants: %r" % (COLUMN_VARIANTS,),
                   "levels (0 reduced, 1 standard, 2 deep)": "quick: %r for lf, 0 for crlf (6 representative formats); thorough: %r for lf, 1 for crlf"
                   % (QUICK_LEVEL, THOROUGH_LEVEL)}
     warnings.filterwarnings("ignore")
